@@ -157,16 +157,21 @@ fn simplifications(op: &Op) -> Vec<Op> {
                 out.push(Op::Annotate { id, target, data });
             }
         }
-        Op::AddResource { id, text } => {
+        Op::AddResource { id, text, replaced } => {
             let chars: Vec<char> = text.chars().collect();
+            if replaced.is_some() {
+                out.push(Op::AddResource { id: id.clone(), text: text.clone(), replaced: None });
+            }
             if chars.len() > 1 {
                 out.push(Op::AddResource {
                     id: id.clone(),
                     text: chars[..chars.len() / 2].iter().collect(),
+                    replaced: replaced.clone(),
                 });
                 out.push(Op::AddResource {
                     id: id.clone(),
                     text: chars.iter().map(|c| if c.is_ascii() { *c } else { 'x' }).collect(),
+                    replaced: replaced.clone(),
                 });
             }
         }
